@@ -533,7 +533,16 @@ impl<Sink: TokenSink> XmlTokenizer<Sink> {
         assert!(c.is_some());
     }
 
-    fn unconsume(&self, input: &BufferQueue, buf: StrTendril) {
+    fn unconsume(&self, input: &BufferQueue, mut buf: StrTendril) {
+        // `buf` was read through get_char, i.e. after newline normalization. If its last
+        // character is a CR that was turned into LF, give the CR back: otherwise the pending
+        // ignore_lf flag swallows the un-consumed LF itself (or, once cleared, the LF of a
+        // CRLF pair is counted twice).
+        if self.ignore_lf.get() && buf.ends_with('\n') {
+            self.ignore_lf.set(false);
+            buf.pop_back(1);
+            buf.push_char('\r');
+        }
         input.push_front(buf);
     }
 }
